@@ -11,7 +11,7 @@
    D. ENG  - a whole run on an arbitrary acyclic graph at event level: data get sealed, vertices get
              activated on demand and invoked once their dependencies are resolved (the guarantees
              A and B establish), processors are a pure function f (Section variable), the closure
-             finishes.  `ref` is the sequential evaluation of the same graph. *)
+             finishes.  `sref` is the sequential evaluation of the same graph. *)
 From Coq Require Import ZArith List Bool Arith.
 Require Import Verif.Gen.Gen_anyflow.
 Import ListNotations.
@@ -381,7 +381,7 @@ Fixpoint ref_from (v : nat) (g : list vertex) (e : env) : env :=
   end.
 Definition preset_env (pre : list (nat * option Z)) : env :=
   fun d => match find (fun p => (fst p =? d)%nat) pre with Some p => Some (snd p) | None => None end.
-Definition ref (g : graph) (pre : list (nat * option Z)) : env := ref_from 0 g (preset_env pre).
+Definition sref (g : graph) (pre : list (nat * option Z)) : env := ref_from 0 g (preset_env pre).
 
 (* ---- the engine ---- *)
 Inductive eev :=
@@ -458,7 +458,8 @@ Definition estep (g : graph) (pre : list (nat * option Z)) (targets : list nat) 
         | VBlocked => None
         | r =>
           let late := match fin s with Some _ => true | None => false end in
-          let r' := match r with VRun _ _ | VFail => if late then VLate else r | _ => r end in   (* run(): closure.finished() -> flush only *)
+          let r' := if late then VLate else r in     (* run(): closure.finished() -> flush only; an essential
+                                                          failure seen after the finish is not told apart *)
           Some {| dv := dv s; trig := trig s; act := act s; ran := bupd (ran s) v (Some r');
                   fin := match r' with VFail => (match fin s with None => Some (-1) | x => x end) | _ => fin s end;
                   taint := taint s; nrel := nrel s |}
@@ -522,12 +523,12 @@ Fixpoint needed_from (rg : list (nat * vertex)) (e : env) (avail : nat -> bool) 
 Fixpoint index_from {A} (k : nat) (l : list A) : list (nat * A) :=
   match l with [] => [] | x :: r => (k, x) :: index_from (S k) r end.
 Definition needed (g : graph) (pre : list (nat * option Z)) (targets : list nat) : list nat * list nat :=
-  let e := ref g pre in
+  let e := sref g pre in
   needed_from (rev (index_from 0 g)) e (fun d => match preset_env pre d with Some _ => true | None => false end) targets [].
 
 (* expected error: a needed vertex fails, or a wanted producer-less data is missing *)
 Definition expect_error (g : graph) (pre : list (nat * option Z)) (targets : list nat) : bool :=
-  let e := ref g pre in
+  let e := sref g pre in
   let '(want, acts) := needed g pre targets in
   existsb (fun v => match nth_error g v with
                     | Some vx => match vertex_res v vx e with VFail => true | _ => false end
